@@ -446,11 +446,30 @@ Qed.
 Lemma sigmoid_y_eq Y : sigmoid_y Y = map sigmoid1 Y.
 Proof. unfold sigmoid_y, sigmoid1; cbv zeta. now rewrite !map_map. Qed.
 
+(* the log-Jacobian of the sigmoid is evaluated from y itself (repair F46): - |y| - 2 log1p(exp(-|y|)) = ln s + ln(1 - s), s = sigmoid y *)
+Lemma sigmoid_logj_scalar y : - Rabs y - 2 * log1p (exp (- Rabs y)) = ln (sigmoid1 y) + log1p (- sigmoid1 y).
+Proof.
+  assert (E0 : ln (sigmoid1 y) + log1p (- sigmoid1 y) = - y - 2 * ln (1 + exp (- y))).
+  { unfold sigmoid1, log1p. pose proof (exp_pos (- y)) as He.
+    replace (1 + - (1 / (1 + exp (- y)))) with (exp (- y) * / (1 + exp (- y))) by (field; lra).
+    replace (1 / (1 + exp (- y))) with (/ (1 + exp (- y))) by (field; lra).
+    rewrite ln_mult by (try apply Rinv_0_lt_compat; lra).
+    rewrite !ln_Rinv by lra. rewrite ln_exp. lra. }
+  rewrite E0. unfold log1p. destruct (Rle_dec 0 y) as [H|H].
+  - rewrite Rabs_right by lra. lra.
+  - rewrite Rabs_left by lra. rewrite Ropp_involutive.
+    assert (E : 1 + exp (- y) = exp (- y) * (1 + exp y)).
+    { rewrite Rmult_plus_distr_l, Rmult_1_r, <- exp_plus. replace (- y + y) with 0 by lra. rewrite exp_0. lra. }
+    pose proof (exp_pos y) as Hy. pose proof (exp_pos (- y)) as Hny.
+    rewrite E, ln_mult, ln_exp by lra. lra.
+Qed.
+
 Lemma sigmoid_logj_eq Y :
   sigmoid_logj Y = vsum (map (fun y => ln (sigmoid1 y) + log1p (- sigmoid1 y)) Y).
 Proof.
-  unfold sigmoid_logj; cbv zeta. fold (sigmoid_y Y). rewrite sigmoid_y_eq.
-  induction Y as [|a Y IH]; cbn [map vmap2]; auto. rewrite !vsum_cons, IH. reflexivity.
+  unfold sigmoid_logj; cbv zeta.
+  induction Y as [|a Y IH]; cbn [map vmap2]; auto. rewrite !vsum_cons, IH.
+  f_equal. rewrite <- sigmoid_logj_scalar. unfold Rminus. reflexivity.
 Qed.
 
 Lemma logit_t_forward_y_eq x l u eps : logit_t_forward_y x l u eps = vmap3 (logit_fwd eps) x l u.
